@@ -45,7 +45,12 @@ def kinds():
     ks.append(("xml-buffered", A.v4_header("PUT", "/bkt/key", pairs=[("tagging", "")], body=TAGGING)))
     ks.append(("chunk-signed", C08.chunked_request([b"a" * 5, b"b" * 7, b"c" * 3])))
     ks.append(("post-form", A.post_form(content=b"line1\r\nline2\r\n--\r\n----x")))
+    ks.append(("post-form-trailing-field", A.post_form(content=b"first line\r\nsecond line\r\n\r\r\n\r", trailing_fields=[("submit", "Upload to Amazon S3")])))
     return ks
+
+
+def every_cut(body, start):
+    return [("cut@%d" % c, [c, len(body) - c]) for c in range(max(1, start), len(body))]
 
 
 def run(rep, tier):
@@ -56,7 +61,12 @@ def run(rep, tier):
     for kname, rq in kinds():
         body = bytes.fromhex(rq.get("body", ""))
         scs, labels = [], []
-        for pname, sizes in partitions(len(body)):
+        parts = partitions(len(body))
+        if kname.startswith("post-form"):
+            # every two-frame cut from the start of the file part to the end of the body
+            fstart = body.find(b"filename=")
+            parts = parts + [p_ for p_ in every_cut(body, fstart) if p_[0] not in dict(parts)]
+        for pname, sizes in parts:
             for variant in ("ready", "pending", "empty"):
                 if variant != "ready" and pname not in ("whole", "thirds", "cut@%d" % (len(body) // 2)):
                     continue
@@ -76,7 +86,7 @@ def run(rep, tier):
             o = sigprops.outcome(out)
             if norm(o) != norm(base):
                 first = int(lab.split("@")[1].split("/")[0]) if lab.startswith("cut@") else (1 if lab.startswith("bytes") else None)
-                role = "multipart_first_frame_inside_boundary_line" if (kname == "post-form" and first is not None and first < len(A.BOUNDARY) + 4) \
+                role = "multipart_first_frame_inside_boundary_line" if (kname.startswith("post-form") and first is not None and first < len(A.BOUNDARY) + 4) \
                     else "framing:%s:%s" % (kname, lab)
                 bad.setdefault(role, (lab, o))
         for role, (lab, o) in bad.items():
@@ -88,6 +98,6 @@ def run(rep, tier):
         if not bad:
             rep.obligation("framing family %s: %d partitions / readiness schedules give the single-frame outcome" % (kname, len(outs)),
                            "replayer(not solver-decided)", "holds", 0, queries=len(outs))
-    rep.sample({"kinds": [k for k, _ in kinds()], "partitions_per_kind": n_cases // 5})
+    rep.sample({"kinds": [k for k, _ in kinds()], "partitions_total": n_cases})
     rep.out("multipart/form-data parsing, plain and buffered bodies, and the generator composition of the chunk decoder are not decided "
             "symbolically (see module comment); hyper's own framing; bodies longer than the family's")
